@@ -212,6 +212,9 @@ pub fn install_panic_hook() {
         } else {
             "<non-string panic>".to_string()
         };
+        if std::env::var_os("DCSIM_PANIC_PRINT").is_some() {
+            eprintln!("PANIC at {loc}: {msg}");
+        }
         PANICS.with(|p| p.borrow_mut().push((loc, msg)));
     }));
 }
@@ -765,7 +768,10 @@ pub fn run_check(check: &dyn Check, tier: Tier, seed: u64) -> i32 {
     let known = load_known();
     let mut known_hits: Vec<KnownFinding> = Vec::new();
     let mut new_violations: Vec<(Violation, PathBuf)> = Vec::new();
-    let replays = root.join("replays");
+    // VERIF_NO_EVIDENCE: self-tests against deliberately broken trees must not touch the
+    // committed evidence / replay files
+    let scratch_out = std::env::var_os("VERIF_NO_EVIDENCE").map(|_| root.join("sim").join("target").join("scratch-out"));
+    let replays = scratch_out.as_ref().map(|p| p.join("replays")).unwrap_or_else(|| root.join("replays"));
     for (v, idx, sc) in &agg.violations {
         if let Some(k) = known
             .findings
@@ -907,7 +913,7 @@ pub fn run_check(check: &dyn Check, tier: Tier, seed: u64) -> i32 {
             "harness_errors": harness_errors,
         }
     });
-    let evdir = root.join("evidence");
+    let evdir = scratch_out.as_ref().map(|p| p.join("evidence")).unwrap_or_else(|| root.join("evidence"));
     let _ = std::fs::create_dir_all(&evdir);
     let _ = std::fs::write(
         evdir.join(format!("{}.json", check.id())),
